@@ -2,6 +2,9 @@
 from fractions import Fraction
 import math
 from .lin import Lin, T
+from . import fm
+import re as _re
+_PARAM = _re.compile(r"p\d+$")
 
 INF = float("inf")
 
@@ -165,6 +168,7 @@ class State:
         self.wraps = PList()  # wrap events [(kind, inst line, k)]
         self.notes = PList()
         self.prod = {}        # product symbol -> (lin key a, lin key b)
+        self.prodl = {}       # product symbol -> (canonical form a, canonical form b)
         self.steps = 0
         self.isc = {}
         self.parted = frozenset()
@@ -186,6 +190,7 @@ class State:
         s.wraps = self.wraps.copy()
         s.notes = self.notes.copy()
         s.prod = dict(self.prod)
+        s.prodl = dict(self.prodl)
         s.steps = self.steps
         s.isc = dict(self.isc)
         s.parted = self.parted
@@ -318,6 +323,48 @@ class State:
         a, z = self.rng_num(lin)
         if a > z:
             raise Infeasible()
+        # relational feasibility of the constraints that only mention parameters (Fourier-Motzkin)
+        if all(isinstance(y, str) and _PARAM.match(y) for y, _ in nk):
+            sub = self.param_cons()
+            if len(sub) >= 2 and not fm.feasible(self.bounds, sub):
+                raise Infeasible()
+
+    def retighten_products(self):
+        """re-derive the bounds of product symbols from the current ranges of their factors"""
+        for s_, (ca, cb) in self.prodl.items():
+            if s_ not in self.bounds:
+                continue
+            try:
+                alo, ahi = self.rng_lin_int(ca)
+                blo, bhi = self.rng_lin_int(cb)
+            except KeyError:
+                continue
+            cs = [alo * blo, alo * bhi, ahi * blo, ahi * bhi]
+            lo, hi = min(cs), max(cs)
+            a, z = self.bounds[s_]
+            a, z = max(a, lo), min(z, hi)
+            if a > z:
+                raise Infeasible()
+            self.bounds[s_] = (a, z)
+
+    def param_cons(self):
+        return {k: v for k, v in self.cons.items() if all(isinstance(y, str) and _PARAM.match(y) for y, _ in k)}
+
+    def rng_tight(self, lin):
+        """integer range of a form, additionally using Fourier-Motzkin over the parameter-only constraints"""
+        lo, hi = self.rng_lin_int(lin)
+        if lin.d == 1 and len(lin.t) >= 2 and all(isinstance(y, str) and _PARAM.match(y) for y in lin.t):
+            sub = self.param_cons()
+            if sub:
+                r = fm.bounds_of(self.bounds, sub, lin.t)
+                if r == "infeasible":
+                    raise Infeasible()
+                a, z = r
+                if a is not None and a + lin.cn > lo:
+                    lo = a + lin.cn
+                if z is not None and z + lin.cn < hi:
+                    hi = z + lin.cn
+        return lo, hi
 
     def _tighten_sym(self, s, k, lo, hi):
         """lo <= k*s <= hi  (integers, k != 0)"""
